@@ -483,6 +483,13 @@ pub fn run(ctx: &Ctx) -> Report {
         if i < 8 && e == En::BE {
             stats_named_code(ctx.seed ^ i as u64, ctx.pick(6, 300, 3000), rep);
         }
+        // the wrapper is a dispatcher used through &self from several threads: every read and write it
+        // passes through must also be recorded, whatever the interleaving (the workload of C15)
+        if i < 4 && ctx.tier != crate::Tier::Tiny {
+            for rpt in 0..ctx.pick(1, 6, 20) {
+                super::c15::check_threads([2usize, 4, 8][(i + rpt) % 3], 60, ctx.seed ^ (0xC10 + (i * 100 + rpt) as u64), rep);
+            }
+        }
         let mut rng = Rng::derive(ctx.seed, crate::report::hash_of(&(0xC10u64, e, i as u64)));
         let mut values = value_grid(*code, ctx.pick(8, 128, 300), &mut rng, ctx.pick(2, 60, 400));
         values.retain(|v| code_len(*code, *v) <= 2000);
